@@ -97,6 +97,93 @@ def stamp_of(path):
     return '%.6f-%d-%d-%d-%d-%d' % (mtime, st.st_size, st.st_ino, st.st_mode, st.st_uid, st.st_gid)
 
 
+class GateController:
+    """Answers the gate requests of hooked redo processes (src/verif.rs).  policy(n, pid, point) returns
+    'g' (go on), 'd' (the requester kills itself) or 'tree' (SIGKILL the whole session, no answer)."""
+
+    def __init__(self, gdir, policy, points='commit,job_done,rec_rename,rec_after_fs,select', allow_crash_window=False,
+                 allow_stamp_window=False, redo_only=False):
+        import threading
+        self.allow_crash_window = allow_crash_window
+        self.allow_stamp_window = allow_stamp_window
+        self.redo_only = redo_only
+        self.after_fs = set()
+        self.stampwin = False
+        self.dir = gdir
+        self.policy = policy
+        self.points = points
+        self.count = 0
+        self.log = []
+        self.pgid = None
+        shutil.rmtree(gdir, ignore_errors=True)
+        os.makedirs(gdir)
+        os.mkfifo(os.path.join(gdir, 'req'))
+        self.fd = os.open(os.path.join(gdir, 'req'), os.O_RDWR)
+        self.stop = False
+        self.th = threading.Thread(target=self.loop, daemon=True)
+        self.th.start()
+
+    def env(self):
+        return {'REDO_VERIF_GATE': self.dir, 'REDO_VERIF_GATE_POINTS': self.points}
+
+    def loop(self):
+        import select
+        buf = b''
+        while not self.stop:
+            r, _, _ = select.select([self.fd], [], [], 0.05)
+            if not r:
+                continue
+            buf += os.read(self.fd, 65536)
+            while b'\n' in buf:
+                line, buf = buf.split(b'\n', 1)
+                parts = line.decode('utf-8', 'replace').split(' ', 2)
+                if len(parts) < 2:
+                    continue
+                pid, point = int(parts[0]), parts[1]
+                try:
+                    fields = json.loads(parts[2]) if len(parts) > 2 else {}
+                except ValueError:
+                    fields = {}
+                comm = fields.get('comm', '')
+                # classify the request: is a kill here inside one of the two known windows?
+                #   crash window: after rename(tmp, target) until the recording transaction commits
+                #   stamp window: after redo-stamp committed until the build of its target is recorded
+                in_crash = point == 'rec_after_fs' or (point == 'commit' and pid in self.after_fs)
+                in_stamp = self.stampwin and comm != 'redo-stamp'
+                allowed = (self.allow_crash_window or not in_crash) and (self.allow_stamp_window or not in_stamp) \
+                    and (not self.redo_only or comm in ('redo', 'redo-ifchange'))
+                if allowed:
+                    self.count += 1
+                verdict = self.policy(self.count, pid, point) if allowed else 'g'
+                self.log.append((self.count, pid, point, verdict, comm, in_crash, in_stamp))
+                if point == 'rec_after_fs':
+                    self.after_fs.add(pid)
+                elif point == 'commit':
+                    if pid in self.after_fs:
+                        self.after_fs.discard(pid)
+                    if comm == 'redo-stamp':
+                        self.stampwin = True
+                    elif self.stampwin and comm in ('redo', 'redo-ifchange') and fields.get('wrote', 0) > 0:
+                        self.stampwin = False
+                if verdict == 'tree':
+                    if self.pgid:
+                        try:
+                            os.killpg(self.pgid, 9)
+                        except ProcessLookupError:
+                            pass
+                    continue
+                rq = fields.get('rq', 0)
+                tmpf = os.path.join(self.dir, 'tmp.%d.%d' % (pid, rq))
+                with open(tmpf, 'wb') as f:
+                    f.write(b'd' if verdict == 'd' else b'g')
+                os.rename(tmpf, os.path.join(self.dir, 'ack.%d.%d' % (pid, rq)))
+
+    def close(self):
+        self.stop = True
+        self.th.join()
+        os.close(self.fd)
+
+
 class Project:
     def __init__(self, prog, root, bindir, trace=None, log_mode=None, pad=0, watch=False, jitter=False):
         self.prog = prog
@@ -168,15 +255,37 @@ class Project:
             env.update(extra)
         return env
 
-    def run(self, argv, timeout=60, extra_env=None):
+    def clone_for_dry_run(self, dst):
+        """copy of the project whose files are hard links (same inode and mtime, hence the same stamps)
+        and whose .redo directory is a deep copy"""
+        shutil.rmtree(dst, ignore_errors=True)
+        os.makedirs(os.path.join(dst, 'p'))
+        for name in os.listdir(self.dir):
+            src = os.path.join(self.dir, name)
+            if name == '.redo':
+                shutil.copytree(src, os.path.join(dst, 'p', '.redo'))
+            elif os.path.isfile(src):
+                os.link(src, os.path.join(dst, 'p', name))
+        import copy
+        other = copy.copy(self)
+        other.root = dst
+        other.dir = os.path.join(dst, 'p')
+        other.vtlog = os.path.join(dst, 'vt.log')
+        return other
+
+    def run(self, argv, timeout=60, extra_env=None, gate=None):
         """run a top-level command; returns (rc, stdout, stderr, started-list, timed_out)"""
         self.cmdno += 1
         try:
             os.unlink(self.vtlog)
         except FileNotFoundError:
             pass
+        if gate:
+            extra_env = dict(extra_env or {}, **gate.env())
         p = subprocess.Popen(argv, cwd=self.dir, env=self.env(extra_env), stdin=subprocess.DEVNULL,
                              stdout=subprocess.PIPE, stderr=subprocess.PIPE, start_new_session=True)
+        if gate:
+            gate.pgid = p.pid
         stop = []
         th = None
         if self.watch:
@@ -343,7 +452,10 @@ def step_input(step):
     """the user-visible input part of a history step"""
     a = step['a']
     if a == 'cmd':
-        return ('cmd', step['kind'], tuple(step['targs']), bool(step['keep']), step.get('j', 1))
+        return ('cmd', step['kind'], tuple(step['targs']), bool(step['keep']), step.get('j', 1)) + \
+            (('killed',) if step.get('killed') else ())
+    if a == 'crash':
+        return ('crash', step['kind'], tuple(step['targs']), bool(step['keep']), step.get('j', 1))
     if a == 'query':
         return ('query', step['kind'])
     return (a, step['n'], step.get('v'))
@@ -354,7 +466,7 @@ def history_input(h):
 
 
 def replay_group(prog, alts, root, bindir, trace=None, log_mode=None, jflag=None, cmd_timeout=60, cats=None,
-                 pad=0, watch=False, jitter=False):
+                 pad=0, watch=False, jitter=False, kill_seed=0):
     """Execute one user-level history.  `alts` are all specification behaviours with that
     input (they differ where the implementation is legitimately nondeterministic, e.g. the
     poll order of wait_for); the real execution must agree, step by step, with at least one.
@@ -377,6 +489,68 @@ def replay_group(prog, alts, root, bindir, trace=None, log_mode=None, jflag=None
             pj.remove(step['n'])
         elif a in ('doedit', 'doadd'):
             pj.write_do(step['n'], step['v'])
+        elif a == 'crash' or (a == 'cmd' and step.get('killed')):
+            # a kill during this command: of the whole tree ('crash') or of one redo process ('killed').
+            # The kill lands at the K-th gate request (commit / rename points of the hooked redo); K is
+            # chosen by the caller's seed among the requests a dry run of the same command makes.
+            argv = ['redo-ifchange' if step['kind'] == 'ifchange' else 'redo']
+            if step.get('j', 1) > 1 and step['kind'] == 'redo':
+                argv.append('-j%d' % step['j'])
+            argv += list(step['targs'])
+            dry = pj.clone_for_dry_run(os.path.join(root, 'dry'))
+            has_stamp = any(o['op'] == 'stamp' for vers in prog['rules'].values() for ver in vers
+                            for ops in ver.values() for o in ops)
+            gkw = dict(allow_crash_window=bool(prog.get('crash_window')), allow_stamp_window=bool(prog.get('stamp_window')),
+                       redo_only=(a == 'cmd'),
+                       # a kill of a redo process that waits (in select) for a script which will still run
+                       # redo-stamp leads into the stamp window later: only with that window allowed
+                       points='commit,job_done,rec_rename,rec_after_fs' + (',select' if (prog.get('stamp_window') or not has_stamp) else ''))
+            g0 = GateController(os.path.join(root, 'gates0'), lambda n, pid, pt: 'g', **gkw)
+            dry.run(argv, timeout=cmd_timeout, gate=g0)
+            g0.close()
+            total = max(1, g0.count)
+            shutil.rmtree(os.path.join(root, 'dry'), ignore_errors=True)
+            k = 1 + (kill_seed % total)
+            mode = 'tree' if a == 'crash' else 'd'
+            fired = []
+
+            def pol(n, pid, pt):
+                if n == k and not fired:
+                    fired.append(1)
+                    return mode
+                return 'g'
+            g1 = GateController(os.path.join(root, 'gates1'), pol, **gkw)
+            pj.trace = os.path.join(root, 'kill_trace.ndjson')
+            rc, so, se, started, to = pj.run(argv, timeout=cmd_timeout, gate=g1)
+            pj.trace = None
+            g1.close()
+            snap = pj.snapshot()
+            hit = [x for x in g1.log if x[3] != 'g']
+            entry.update({'argv': argv, 'rc': rc, 'started': started, 'kill_at': k, 'gates_in_dry_run': total,
+                          'kill_point': hit[0][2] if hit else None, 'stderr': se[-1500:], 'alternatives': len(live),
+                          'gate_log': [list(x) for x in g1.log], 'dry_gate_log': [list(x) for x in g0.log]})
+            best = None
+            nxt = []
+            for h in live:
+                st = h[i]
+                diffs = []
+                if to:
+                    diffs.append('command did not terminate within %ds' % cmd_timeout)
+                if a == 'cmd':
+                    if rc != st['rc'] and want_cat('rc'):
+                        diffs.append('exit status: have %s, spec says %s' % (rc, st['rc']))
+                diffs += [txt for (cat, txt) in pj.compare(snap, st['snap']) if want_cat(cat)]
+                if not diffs:
+                    nxt.append(h)
+                elif best is None or len(diffs) < len(best):
+                    best = diffs
+            if not hit:
+                entry['note'] = 'no kill happened (fewer gate requests than in the dry run)'
+            if not nxt:
+                entry['diffs'] = best
+                report.append(entry)
+                return False, report
+            live = nxt
         elif a == 'cmd':
             argv = ['redo-ifchange' if step['kind'] == 'ifchange' else 'redo']
             if step['keep'] and step['kind'] == 'redo':
